@@ -55,7 +55,15 @@ def _host_settings():
         return None
     import decimal
     parts = v.split(',')
-    return decimal.Context(prec=int(parts[0]), rounding=getattr(decimal, parts[1]) if len(parts) > 1 else decimal.ROUND_DOWN)
+    traps = []
+    if 'traps' in parts:
+        # ... or a host that wants to hear about every inexact decimal operation of its own code: the documented place for application-wide
+        # defaults is DefaultContext (new Context objects and new threads inherit from it), and the running thread's context has them too
+        parts.remove('traps')
+        traps = [decimal.Inexact, decimal.Rounded, decimal.InvalidOperation, decimal.DivisionByZero, decimal.Overflow, decimal.Subnormal, decimal.Underflow]
+        for t in (decimal.Inexact, decimal.Rounded, decimal.Subnormal):
+            decimal.DefaultContext.traps[t] = True
+    return decimal.Context(prec=int(parts[0]), rounding=getattr(decimal, parts[1]) if len(parts) > 1 else decimal.ROUND_DOWN, traps=traps)
 
 
 _HOST_CTX = _host_settings()
